@@ -89,6 +89,8 @@ let s_tree (t : ctree) = let b = Buffer.create 1024 in dump_node b t.root; Buffe
 let s_rc (m : rcmap) =
   let l = List.filter (fun (_, c) -> c <> Z0) m in
   let l = List.map (fun (i, c) -> (int_of_n i, int_of_z c)) l in
+  (* v0 (object id 1) stands for Python's None, whose reference count the harness cannot observe *)
+  let l = List.filter (fun (i, _) -> i <> 1) l in
   (* keys first (by ordinal, variant), then values (by number) *)
   let cmp (i, _) (j, _) = compare (i land 1, i) (j land 1, j) in
   let l = List.sort cmp l in
